@@ -212,9 +212,77 @@ def vcr_matrix(tier, seed):
             "violations": viol, "known_findings_hit": [texts[k] for k in known]}
 
 
+def vcr_interaction_sequences(tier, seed):
+    """Bounded native enumeration: every sequence of up to 3 (quick) / 4 (thorough) exchanges of one scenario, each of them {checked and passed, checked and failed,
+    answered but without recorded checks, not answered}: every exchange must appear exactly once, in order, with ITS OWN status and ITS OWN check results."""
+    import io
+    import itertools
+    import queue
+    from types import SimpleNamespace
+    import yaml
+    from schemathesis.cli.commands.run.handlers import cassettes as C
+    from schemathesis.core.failures import Failure
+    from schemathesis.core.transport import Response
+    from schemathesis.engine import Status
+    from schemathesis.engine.recorder import CaseNode, CheckFailureInfo, CheckNode, Interaction, Request, ScenarioRecorder
+    from schemathesis.generation import GenerationMode
+    from schemathesis.generation.meta import CaseMetadata, ComponentInfo, ComponentKind, GenerationInfo, PhaseInfo
+
+    kinds = ("pass", "fail", "no-checks", "no-response")
+    L = 3 if tier == "quick" else 4
+    n = 0
+    viol = []
+    for k in range(1, L + 1):
+        for seq in itertools.product(kinds, repeat=k):
+            n += 1
+            rec = ScenarioRecorder(label="GET /x")
+            expected = []
+            for i, kind in enumerate(seq):
+                cid = f"c{i}"
+                meta = CaseMetadata(generation=GenerationInfo(time=0.1, mode=GenerationMode.POSITIVE), components={ComponentKind.QUERY: ComponentInfo(mode=GenerationMode.POSITIVE)}, phase=PhaseInfo.generate())
+                rec.cases[cid] = CaseNode(value=SimpleNamespace(id=cid, meta=meta), parent_id=None, transition=None)
+                req = Request(method="GET", uri=f"http://127.0.0.1/x?i={i}", body=None, body_size=None, headers={"X-A": ["v"]})
+                resp = None if kind == "no-response" else Response(status_code=200, headers={"Content-Type": ["text/plain"]}, content=b"ok", request=SimpleNamespace(), elapsed=0.1,
+                                                                   verify=True, message="OK", http_version="1.1", encoding="utf-8")
+                rec.interactions[cid] = Interaction(request=req, response=resp)
+                if kind == "pass":
+                    rec.checks[cid] = [CheckNode(name=f"check_{i}", status=Status.SUCCESS, failure_info=None)]
+                    expected.append((cid, "SUCCESS", [(f"check_{i}", "SUCCESS")]))
+                elif kind == "fail":
+                    failure = Failure(operation="GET /x", title=f"failure {i}", message="m")
+                    rec.checks[cid] = [CheckNode(name=f"check_{i}", status=Status.FAILURE, failure_info=CheckFailureInfo(failure=failure, code_sample="curl"))]
+                    expected.append((cid, "FAILURE", [(f"check_{i}", "FAILURE")]))
+                elif kind == "no-checks":
+                    expected.append((cid, "SKIP", []))
+                else:
+                    expected.append((cid, "ERROR", []))
+
+            class Sink(io.StringIO):
+                def close(self):
+                    pass
+
+            sink = Sink()
+            q = queue.Queue()
+            q.put(C.Initialize(seed=1))
+            q.put(C.Process(recorder=rec))
+            q.put(C.Finalize())
+            C.vcr_writer(SimpleNamespace(open=lambda: sink, close=lambda: None), False, False, q)
+            problem = None
+            try:
+                items = yaml.safe_load(sink.getvalue())["http_interactions"]
+                got = [(it_["id"], it_["status"], [(c["name"], c["status"]) for c in (it_.get("checks") or [])]) for it_ in items]
+                if got != expected:
+                    problem = {"expected": expected, "got": got}
+            except Exception as exc:  # noqa: BLE001
+                problem = f"not valid YAML: {type(exc).__name__}: {exc}"[:200]
+            if problem and len(viol) < 3:
+                viol.append({"exchanges": list(seq), "problem": problem})
+    return {"name": "vcr_interaction_sequences", "bound": f"all sequences of up to {L} exchanges over {kinds}", "evaluations": n, "exhaustive": True, "violations": viol}
+
+
 KNOWN_F16D = live_finding("F16d")
 KNOWN_F16A = live_finding("F16a")
-BOUNDED = [double_quoted_every_code_point, double_quoted_loop_bookkeeping, vcr_matrix]
+BOUNDED = [double_quoted_every_code_point, double_quoted_loop_bookkeeping, vcr_matrix, vcr_interaction_sequences]
 
 LEVEL_TEXT = ("JUnit handler crash-freedom is a deductive obligation over an arbitrary statistic (pyvc/z3). YAML escaping is decided by complete enumeration of all code points "
               "plus a bounded loop-bookkeeping check; cassette structure by a native matrix. Level other: most of the property lives in string formats outside the deductive encoding.")
